@@ -19,7 +19,11 @@
    Part 2: the executable case model used by the correspondence check: a
    schedule at the granularity of the verif hook points of WriteFile
    (created / written / closed / return) is expanded into a trace of Part 1 and
-   executed; plus the boolean property oracle [spec_ok] on observations. *)
+   executed (SF: a writer whose rename is made to fail takes the error path EFail);
+   plus the boolean property oracle [spec_ok] on observations.
+
+   Part 3 (end of file): runs of Part 1 decorated with the API-level events a
+   free-running case records; used only in theorem statements. *)
 From NV Require Import Base Generated.
 Open Scope string_scope.
 Open Scope list_scope.
